@@ -95,6 +95,13 @@ def oracle(case: dict) -> Outcome:
     Xr, kappa, Ls = reference(A, root, eff_eps, use_mp)
     peak = float(Ls.min()) ** (-1.0 / root) if float(Ls.min()) > 0 else float("inf")
     low = float(Ls.max()) ** (-1.0 / root)
+    # a smallest eigenvalue that the working dtype cannot resolve (<= 16 n u ||A||) may come out of the eigensolver as zero or slightly negative; the
+    # documented shift then leaves epsilon itself as the smallest shifted eigenvalue: the worst-case peak is eps^(-1/r)
+    if float(Ls.min()) - eff_eps <= 16 * n * u * float(Ls.max()):
+        try:
+            peak = max(peak, eff_eps ** (-1.0 / root))
+        except OverflowError:
+            peak = float("inf")
     if not math.isfinite(peak) or peak > 1e-3 * float(torch.finfo(dt).max) or eff_eps < float(torch.finfo(dt).tiny) * 1e3 or low < float(torch.finfo(dt).tiny) * 1e3:
         out.classes.append("overflow_domain")  # the exact result is not representable in the working dtype
         return out
